@@ -4,6 +4,7 @@ package main
 // freshness, bounds, fail-only-when-full and free follow by induction over histories.
 
 import (
+	"sort"
 	"fmt"
 	"go/constant"
 	"go/token"
@@ -116,84 +117,103 @@ func propC20(w *World, r *Report, tier string) {
 			}
 		}
 	}
-	// ---- bounds: writers of offset leave it reduced
+	// ---- bounds: every function that stores to offset itself leaves it reduced (functions that
+	// only reach it through such a helper need nothing of their own)
+	reduced := func(v ssa.Value, recv ssa.Value) bool {
+		switch v := v.(type) {
+		case *ssa.Const:
+			if c, isInt := constant.Int64Val(constant.ToInt(v.Value)); isInt && c == 0 {
+				return true
+			}
+		case *ssa.BinOp:
+			if v.Op == token.REM && fieldLoad(v.Y, recv, "valueRange") {
+				return true
+			}
+		}
+		return false
+	}
+	var names []string
 	for name := range offsetWriters {
+		names = append(names, name)
+	}
+	sort.Strings(names)
+	for _, name := range names {
 		fn := get(name)
 		if fn == nil {
 			continue
 		}
 		fname := SSAFuncName(fn)
 		recv := ssa.Value(fn.Params[0])
-		if name == "Allocate" || name == "Allocate_inRange" {
-			continue // they write only through updateOffset / setOffset (checked below)
-		}
-		r.Site("alloc.bounds")
-		var last *ssa.Store
-		nblocks := 0
+		var stores []*ssa.Store
 		for _, b := range fn.Blocks {
 			for _, ins := range b.Instrs {
 				if st, ok := ins.(*ssa.Store); ok && fieldAddr(st.Addr, recv, "offset") {
-					last = st
-					nblocks++
+					stores = append(stores, st)
 				}
 			}
 		}
-		if len(fn.Blocks) != 1 || last == nil {
-			r.Fail("alloc.bounds", fname, "shape", fn.Pos(), "writer of offset is not straight-line code: the 'last store is reduced' rule does not apply", nil)
-			continue
+		if len(stores) == 0 {
+			continue // writes only through the helpers checked here
 		}
-		ok := false
-		switch v := last.Val.(type) {
-		case *ssa.Const:
-			if c, isInt := constant.Int64Val(constant.ToInt(v.Value)); isInt && c == 0 {
-				ok = true
+		r.Site("alloc.bounds")
+		bad := (*ssa.Store)(nil)
+		if len(fn.Blocks) == 1 {
+			// straight-line code: what the last store leaves is what counts
+			if last := stores[len(stores)-1]; !reduced(last.Val, recv) {
+				bad = last
 			}
-		case *ssa.BinOp:
-			if v.Op == token.REM && fieldLoad(v.Y, recv, "valueRange") {
-				ok = true
+		} else {
+			for _, st := range stores {
+				if !reduced(st.Val, recv) {
+					bad = st
+				}
 			}
 		}
-		if !ok {
-			r.Fail("alloc.bounds", fname, "offset", last.Pos(), "the value left in offset is not reduced modulo valueRange (nor 0): offsets can leave [0, valueRange) and identifiers the configured bounds", nil)
+		if bad != nil {
+			r.Fail("alloc.bounds", fname, "offset", bad.Pos(), "the value left in offset is not reduced modulo valueRange (nor 0): offsets can leave [0, valueRange) and identifiers the configured bounds", nil)
 		} else {
 			r.OK("alloc.bounds")
 		}
 	}
-	for _, name := range []string{"Allocate", "Allocate_inRange"} {
-		fn := get(name)
-		if fn == nil {
-			continue
-		}
+	// Go's % keeps the sign of the dividend: a value handed to the reducing helper must not be able
+	// to go negative.  A parameter of an exported method is non-negative by the stated premise, the
+	// offset itself by the invariant above; a difference is not.
+	for _, fn := range methods {
 		recv := ssa.Value(fn.Params[0])
+		var nonNeg func(v ssa.Value, depth int) bool
+		nonNeg = func(v ssa.Value, depth int) bool {
+			if depth > 4 {
+				return false
+			}
+			switch a := v.(type) {
+			case *ssa.Parameter:
+				return true
+			case *ssa.Const:
+				return a.Value != nil && a.Int64() >= 0
+			case *ssa.UnOp:
+				return a.Op == token.MUL && fieldLoad(a, recv, "offset")
+			case *ssa.BinOp:
+				switch a.Op {
+				case token.REM, token.AND:
+					// x % m and x & mask of a non-negative x stay non-negative
+					return nonNeg(a.X, depth+1)
+				case token.ADD:
+					return nonNeg(a.X, depth+1) && nonNeg(a.Y, depth+1)
+				}
+			}
+			return false
+		}
 		for _, b := range fn.Blocks {
 			for _, ins := range b.Instrs {
-				if st, ok := ins.(*ssa.Store); ok && fieldAddr(st.Addr, recv, "offset") {
-					r.Fail("alloc.bounds", SSAFuncName(fn), "direct store", st.Pos(), "offset is stored directly (not through a reducing helper)", nil)
+				c, ok := ins.(*ssa.Call)
+				if !ok || c.Call.StaticCallee() == nil || c.Call.StaticCallee().Name() != "setOffset" || len(c.Call.Args) != 2 {
+					continue
 				}
-				// Go's % keeps the sign of the dividend: the value handed to setOffset must not
-				// be able to go negative.  A parameter of the exported method is non-negative by
-				// the stated premise; a difference is not.
-				if c, ok := ins.(*ssa.Call); ok && c.Call.StaticCallee() != nil && c.Call.StaticCallee().Name() == "setOffset" && len(c.Call.Args) == 2 {
-					r.Site("alloc.bounds")
-					good := false
-					switch a := c.Call.Args[1].(type) {
-					case *ssa.Parameter:
-						good = true
-					case *ssa.Const:
-						good = a.Int64() >= 0
-					case *ssa.BinOp:
-						// x % valueRange and x & mask of non-negative operands stay non-negative
-						if a.Op == token.REM || a.Op == token.AND {
-							if _, isParam := a.X.(*ssa.Parameter); isParam {
-								good = true
-							}
-						}
-					}
-					if good {
-						r.OK("alloc.bounds")
-					} else {
-						r.Fail("alloc.bounds", SSAFuncName(fn), "setOffset argument", c.Pos(), "the value handed to setOffset ("+exprText(c.Call.Args[1])+") can be negative; x % valueRange keeps the sign of x, so the offset can leave [0, valueRange) and the identifier the configured bounds", nil)
-					}
+				r.Site("alloc.bounds")
+				if nonNeg(c.Call.Args[1], 0) {
+					r.OK("alloc.bounds")
+				} else {
+					r.Fail("alloc.bounds", SSAFuncName(fn), "setOffset argument", c.Pos(), "the value handed to setOffset ("+exprText(c.Call.Args[1])+") can be negative; x % valueRange keeps the sign of x, so the offset can leave [0, valueRange) and the identifier the configured bounds", nil)
 				}
 			}
 		}
